@@ -101,12 +101,12 @@ def move_case(n, outcomes, msg_id=5, pc_id=1, default_handler=False, declared=No
 # ------------------------------------------------------------------------------------------------
 # C-GET user
 
-def get_case(script, handler_outcomes, final_status, file_backed, msg_id=9, consume='all'):
+def get_case(script, handler_outcomes, final_status, file_backed, msg_id=9, consume='all', cross=False):
     """script: list of 'S' (a C-STORE-RQ from the peer) and 'P' (a pending C-GET-RSP) in peer order;
     handler_outcomes: per 'S' one of 's','w','f','raise'."""
     from pynetdicom2 import applicationentity, sopclass, statuses, dimsemessages, exceptions
     case = {'kind': 'get', 'script': script, 'handler_outcomes': handler_outcomes, 'final_status': final_status,
-            'file_backed': file_backed, 'msg_id': msg_id}
+            'file_backed': file_backed, 'msg_id': msg_id, 'cross': cross}
     nstore = script.count('S')
     sops = [svc.SC_STORAGE, svc.CT_STORAGE]
     dss = [svc.simple_ds(PatientName='G%d' % i, PatientID='X' * (i + 1), SOPClassUID=sops[i % 2],
@@ -182,6 +182,11 @@ def get_case(script, handler_outcomes, final_status, file_backed, msg_id=9, cons
                 if step == 'S':
                     ds = dss[si]
                     pc = state['ids'][str(ds.SOPClassUID)]
+                    if cross and si >= 2 and file_backed != 'mixed':
+                        # from the third instance on the peer uses the OTHER storage context it negotiated (same transfer
+                        # syntax, same storage mode): a class arrives on a context it did not arrive on before, and the
+                        # answer belongs on the context each request arrived on
+                        pc = state['ids'][str(dss[si - 1].SOPClassUID)]
                     f = {0x0002: str(ds.SOPClassUID), 0x0100: 0x0001, 0x0110: 100 + si * 257, 0x0700: 0,
                          0x1000: str(ds.SOPInstanceUID)}
                     state['store_reqs'].append((f, pc))
@@ -357,7 +362,8 @@ def run_random(ctx, n):
         st.integers(0, 127).map(lambda x: 2 * x + 1))
     get = st.tuples(st.just('get'), st.lists(st.sampled_from('SSSP'), min_size=0, max_size=8).map(''.join),
                     st.lists(st.sampled_from(['s', 's', 'w', 'f', 'raise']), min_size=8, max_size=8),
-                    st.sampled_from([0x0000, 0xB000, 0xA701, 0xC000, 0xFE00]), st.sampled_from([False, True, 'archive', 'late', 'mixed']), st.integers(0, 65535))
+                    st.sampled_from([0x0000, 0xB000, 0xA701, 0xC000, 0xFE00]), st.sampled_from([False, True, 'archive', 'late', 'mixed']), st.integers(0, 65535),
+                    st.booleans())
 
     def fn(value):
         if value[0] == 'move':
@@ -366,22 +372,27 @@ def run_random(ctx, n):
             move_case(k, oc, mid, pc)
             move_case(k, oc, mid, pc, lazy=True)
         else:
-            _, script, hos, final, fb, mid = value
+            _, script, hos, final, fb, mid, cross = value
             ns = script.count('S')
-            ctx.case(value, ns >= 2 or 'P' in script, labels=['get', 'stores=%d' % ns, 'file' if fb else 'memory'],
-                     sample={'script': script, 'handler_outcomes': hos[:ns], 'final': final, 'file_backed': fb})
-            get_case(script, hos, final, fb, mid)
+            ctx.case(value, ns >= 2 or 'P' in script, labels=['get', 'stores=%d' % ns, 'file' if fb else 'memory'] +
+                     (['get: class arriving on a second context'] if cross and ns >= 3 and fb != 'mixed' else []),
+                     sample={'script': script, 'handler_outcomes': hos[:ns], 'final': final, 'file_backed': fb, 'cross': cross})
+            get_case(script, hos, final, fb, mid, cross=cross)
     hyp_search(ctx, st.one_of(move, get, get), fn, n, name='C19-random', max_buckets=8)
 
 
 def run_get_enum(ctx):
-    for script in ('', 'S', 'SP', 'PS', 'SS', 'SPS', 'PSSP', 'SSS', 'PPSPS'):
+    for script in ('', 'S', 'SP', 'PS', 'SS', 'SPS', 'PSSP', 'SSS', 'PPSPS', 'SSPSS'):
         for fb in (False, True, 'archive', 'late', 'mixed'):
             for hi, hos in enumerate((['s'] * 8, ['w', 'f', 's', 'raise'] * 2, ['raise'] * 8)):
                 ctx.case(('get', script, fb, hos[0]), script.count('S') >= 2 or 'P' in script,
                          labels=['get', 'enum', ('spool-file' if fb == 'archive' else 'file') if fb else 'memory'],
                          sample={'script': script, 'file_backed': fb, 'handler_outcomes': hos[:script.count('S')]})
                 ctx.check(get_case, script, hos, 0x0000, fb, 9 + hi + len(script))
+                if script.count('S') >= 3 and fb != 'mixed':
+                    ctx.case(('get', script, fb, hos[0], 'cross'), True, labels=['get', 'enum', 'get: class arriving on a second context'],
+                             sample={'script': script, 'file_backed': fb, 'cross': True})
+                    ctx.check(get_case, script, hos, 0x0000, fb, 9 + hi + len(script), cross=True)
 
 
 def shard(ctx, job):
@@ -422,4 +433,5 @@ def replay(case):
         move_case(case['n'], case['outcomes'], case['msg_id'], case['pc_id'], case.get('default', False), case.get('declared'), case.get('lazy', False),
                   case.get('confirm_release', True))
     else:
-        get_case(case['script'], case['handler_outcomes'], case['final_status'], case['file_backed'], case['msg_id'])
+        get_case(case['script'], case['handler_outcomes'], case['final_status'], case['file_backed'], case['msg_id'],
+                 cross=bool(case.get('cross')))
